@@ -122,6 +122,29 @@ fn check_bytes(test: &str, b: &[u8]) {
             fail(test, "an index >= N yields something", b);
         }
     }
+    // the tag array agrees with the one accessor that compares it as a whole: tags_match_exactly(e) <=> e yields exactly the
+    // tag array -- for eager (exact size hint) and lazy (no size hint: filter / from_fn) iterators alike
+    {
+        let tags: Vec<Tag> = view.tags().to_vec();
+        let extra = Tag::new_from_u32(0x5a5a_5a5a);
+        let mut longer = tags.clone();
+        longer.push(extra);
+        let lazy = |v: &Vec<Tag>| { let v = v.clone(); let mut k = 0; std::iter::from_fn(move || { k += 1; v.get(k - 1).copied() }) };
+        if !view.tags_match_exactly(tags.clone()) || !view.tags_match_exactly(tags.iter().copied().filter(|_| true)) || !view.tags_match_exactly(lazy(&tags)) {
+            fail(test, "tags_match_exactly(the tag array) is false", b);
+        }
+        if view.tags_match_exactly(longer.clone()) || view.tags_match_exactly(longer.iter().copied().filter(|_| true)) || view.tags_match_exactly(lazy(&longer)) {
+            fail(test, "tags_match_exactly accepts the tag array followed by one more tag", b);
+        }
+        if n > 0 {
+            let shorter = tags[..n - 1].to_vec();
+            let mut changed = tags.clone();
+            changed[n - 1] = Tag::new_from_u32(changed[n - 1].value() ^ 1);
+            if view.tags_match_exactly(shorter.clone()) || view.tags_match_exactly(lazy(&shorter)) || view.tags_match_exactly(changed.clone()) || view.tags_match_exactly(lazy(&changed)) {
+                fail(test, "tags_match_exactly accepts a proper prefix of the tag array, or one with a different last tag", b);
+            }
+        }
+    }
     // a tag lookup returns a value stored under exactly that tag, or nothing when the tag is absent
     for i in 0..n {
         let t = le32(b, 4 * (n + i));
